@@ -483,7 +483,7 @@ fn run_blowup(ctx: &mut Ctx, rng: &mut Rng, index: u64) {
     let wire: Vec<u8> = match index % 4 {
         0 => [b"HTTP/1.1 200 OK\r\nContent-Length: ".as_slice(), big, b"\r\n\r\nsmall body"].concat(),
         1 => [b"HTTP/1.1 200 OK\r\nTransfer-Encoding: chunked\r\n\r\n".as_slice(), big, b"\r\nsmall".as_slice()].concat(),
-        2 => [b"HTTP/1.1 200 OK\r\nTransfer-Encoding: chunked\r\n\r\n3\r\nabc\r\n".as_slice(), big, b";ext\r\n".as_slice(), &vec![b'z'; 70_000]].concat(),
+        2 => [b"HTTP/1.1 200 OK\r\nTransfer-Encoding: chunked\r\n\r\n3\r\nabc\r\n".as_slice(), big, b";ext\r\n".as_slice(), &vec![b'z'; if crate::framework::small_mode() { 700 } else { 70_000 }]].concat(),
         _ => [b"HTTP/1.1 407 No\r\nContent-Length: ".as_slice(), big, b"\r\n\r\nrefused"].concat(),
     };
     let entry = if index % 4 == 3 { Entry::Tunnel } else { Entry::Direct };
